@@ -145,6 +145,65 @@ def damage(rng, data, kind):
     raise ValueError(kind)
 
 
+class Fresh:
+    """Conversions in a process that has never converted anything: a server forked before the harness touches the converters forks one
+    child per job, so module-level state left behind by an earlier conversion (in the harness process) cannot be there."""
+
+    def __init__(self, conv):
+        import multiprocessing
+        mp = multiprocessing.get_context('fork')
+        self.parent, child = mp.Pipe()
+        self.proc = mp.Process(target=Fresh._serve, args=(child, conv))
+        self.proc.start()
+        child.close()
+
+    @staticmethod
+    def _serve(conn, conv):
+        import multiprocessing
+        mp = multiprocessing.get_context('fork')
+        while True:
+            try:
+                job = conn.recv()
+            except EOFError:
+                break
+            if job is None:
+                break
+            a, b = mp.Pipe()
+            p = mp.Process(target=Fresh._one, args=(b, conv, job))
+            p.start()
+            b.close()
+            try:
+                res = a.recv() if a.poll(90) else ('hang', None)
+            except EOFError:
+                res = ('escaped', 'process died')
+            p.join(2)
+            if p.is_alive():
+                p.terminate()
+            conn.send(res)
+
+    @staticmethod
+    def _one(conn, conv, job):
+        cname, args = job
+        try:
+            conn.send(('ok', tuple(conv[cname](*args))))
+        except BaseException as e:
+            conn.send(('escaped', type(e).__name__))
+        os._exit(0)
+
+    def run(self, cname, args):
+        self.parent.send((cname, args))
+        return self.parent.recv()
+
+    def close(self):
+        try:
+            self.parent.send(None)
+            self.proc.join(5)
+        except Exception:
+            pass
+        if self.proc.is_alive():
+            self.proc.terminate()
+
+
 def foreign_variants():
     """the 'foreign' files of damage(), enumerated: every cut of the LAS / DAT texts at a line boundary with every ending, the
     whole files, and every prefix of the magic numbers the sniffer knows"""
@@ -454,6 +513,9 @@ def run(ctx):
     rng = ctx.subrng('c12')
     wd = ctx.wdir('dirs')
     conv = {'RP66V1': RT.single_rp66v1_file_to_las, 'LIS': LT.single_lis_file_to_las, 'BIT': BT.single_bit_path_to_las_path}
+    fresh = Fresh(conv)          # forked now, before this process converts anything
+    import atexit
+    atexit.register(fresh.close)
     traces, meta, special = [], [], []
     pdir = ctx.wdir('probe')
 
@@ -498,7 +560,16 @@ def run(ctx):
                     pout = os.path.join(out_root, 'o', rel)
                     os.makedirs(os.path.dirname(pout), exist_ok=True)
                     try:
-                        r = with_alarm(60, fn, os.path.join(din, rel), args[0], pout, args[1], set(args[2]), args[3], args[4])
+                        if rep == 0:
+                            r = with_alarm(60, fn, os.path.join(din, rel), args[0], pout, args[1], set(args[2]), args[3], args[4])
+                        else:
+                            # the second time in a process that has never converted anything (no state left by earlier files)
+                            st_, val_ = fresh.run(cname, (os.path.join(din, rel), args[0], pout, args[1], set(args[2]), args[3], args[4]))
+                            if st_ == 'hang':
+                                raise Watchdog()
+                            if st_ != 'ok':
+                                raise RuntimeError(val_)
+                            r = WriteLAS.LASWriteResult(*val_)
                         two.append(dict(status=status_of(r), fields=fields_of(r), outs=digest_tree(os.path.join(out_root, 'o'))))
                     except Watchdog:
                         two.append(dict(status='hang', fields=[], outs=[]))
@@ -506,7 +577,8 @@ def run(ctx):
                         two.append(dict(status='escaped', fields=[type(e).__name__], outs=[]))
                 if two[0] != two[1]:
                     deterministic = False
-                    ctx.fail('%s converter: converting %s (%s) twice gives different answers: %s vs %s' % (cname, rel, cls[rel], two[0], two[1]),
+                    ctx.fail('%s converter: converting %s (%s) on its own twice - in the process that converted other files before, and in a '
+                             'fresh process - gives different answers: %s vs %s' % (cname, rel, cls[rel], two[0], two[1]),
                              dict(file=rel, cls=cls[rel]), sig=dict(kind='nondeterministic', converter=cname))
                 iso[rel] = two[0]
                 ctx.case(('iso', di, cname, rel), cls[rel] != 'valid-' + cname)
@@ -546,8 +618,9 @@ def run(ctx):
                 except Exception as e:
                     raised = '%s: %s' % (type(e).__name__, e)
                 for ch in multiprocessing.active_children():        # the driver never closes its pool
-                    ch.terminate()
-                    ch.join()
+                    if ch.pid != fresh.proc.pid:
+                        ch.terminate()
+                        ch.join()
                 tr = [dict(start, mode=mode)]
                 for evf in sorted(os.listdir(evdir)):
                     for ln in open(os.path.join(evdir, evf)):
@@ -634,8 +707,9 @@ def run(ctx):
                         cname, mode, jobs, layout, recurse, type(e).__name__, e), dict(layout=layout, converter=cname, mode=mode, jobs=jobs),
                         sig=dict(kind='empty-walk', converter=cname, mode=mode))
                 for ch in multiprocessing.active_children():
-                    ch.terminate()
-                    ch.join()
+                    if ch.pid != fresh.proc.pid:
+                        ch.terminate()
+                        ch.join()
     shutil.rmtree(eroot, ignore_errors=True)
     # 3. fault enumeration on one valid file per format
     frng = ctx.subrng('faults')
@@ -676,6 +750,7 @@ def run(ctx):
             shutil.rmtree(os.path.join(fdir, 'o'), ignore_errors=True)
         shutil.rmtree(fdir, ignore_errors=True)
     ctx.notes['faults_enumerated'] = nfault
+    fresh.close()
     ctx.rule = ('isolated conversions: one case per (directory, converter, file), non-trivial = not a valid file of that converter; batch runs: '
                 'one case per (directory, converter, mode, jobs), non-trivial = pool with > 1 job; faults: one case per damaged variant')
     ctx.assumptions += ['output names of different input files do not coincide except in the same-stem scenario (judged separately)',
